@@ -623,6 +623,12 @@ func (n node) compact(lo uint64) int {
 		if left != right {
 			copy(n.data(left), n.data(right))
 		}
+		// The max key is kept only so that the routing key in the parent stays valid. If
+		// its value is below lo, turn it into a placeholder (value zero) so that Get and
+		// IterateKV no longer serve the stale value.
+		if n.val(left) < lo {
+			n.setAt(valOffset(left), 0)
+		}
 		left++
 	}
 	// zero out rest of the kv pairs.
